@@ -69,7 +69,7 @@ def validate(module: str, records: list[dict], *, cfg: str | None = None, shards
                     for c in parts[3].split(','):
                         if c and c not in cur:
                             cur.append(c)
-            elif ln.startswith('N|'):
+            elif ln.startswith('N|') or ln.startswith('U|'):
                 parts = ln.split('|', 2)
                 out.notes.setdefault(parts[1], []).append(parts[2])
     missing = [i for i in ids if i not in out.fails]
